@@ -21,7 +21,7 @@ ASSUMPTIONS = [
     'residue is read from Manager._handlers/_tasks through getattr; if absent the clause is judged by firing the temporary names',
 ]
 
-LEAF = ['R', 'N', 'X', 'G1', 'G2', 'GX0', 'GX1', 'RG', 'XG', 'GA', 'GB']
+LEAF = ['R', 'N', 'X', 'G1', 'G2', 'GX0', 'GX1', 'RG', 'XG', 'GA', 'GB', 'NOH']
 CALLER = ['call', 'waitn', 'waito', 'call2', 'cally', 'ycall']
 SLOW = ['S0', 'S1', 'S2', 'S3', 'S4']   # callee lasting k loop iterations (timeout programs)
 
@@ -30,6 +30,8 @@ def leaf_handlers(level, shape):
     b = 10 * (level + 1)
     t = 'e%d' % level
     h = 'h%d' % level
+    if shape == 'NOH':   # nobody handles the callee event
+        return []
     if shape == 'R':
         return [(h, t, 2, [('ret', b + 1)])]
     if shape == 'N':
@@ -133,7 +135,11 @@ def execute(program):
     def go(w):
         for _ in range(nroots):
             w.fire('e0', {'success': True, 'complete': True})
-    w = ghost.RunWorld(build(program), script=[None, go], horizon=70)
+    ghost.World.observe_names = ['e0_success', 'e0_complete', 'exception']
+    try:
+        w = ghost.RunWorld(build(program), script=[None, go], horizon=70)
+    finally:
+        ghost.World.observe_names = None
     w.value_by_eid = True
     ghost.World.task_order_reversed = False
     before = handler_table(w)
